@@ -85,7 +85,7 @@ impl core::fmt::Display for Duration {
         f.write_str(
             &self
                 .as_temporal_string(ToStringRoundingOptions::default())
-                .expect("Duration must return a valid string with default options."),
+                .map_err(|_| core::fmt::Error)?,
         )
     }
 }
